@@ -144,4 +144,38 @@ theorem accepted_file_batches_verified (c : Ctx) (bp : String) (nb : Nat)
     unfold run
     rw [hv]
 
+
+/-- every `BatchXXX.Validate` of the table but the ADV one, when it returns nil, had `Batch.verify()` return nil first -/
+theorem accepted_sec_validate_verified (name : String) (P : Prog) (hm : (name, P) ∈ dispatchTable) (hn : name ≠ "BatchADV")
+    (c : Ctx) (ha : run c P = .accept) : run c v_Batch_verify = .accept := by
+  have hres := Ach.Props.Validators.accept_ret c _ ha
+  have hrow := List.all_eq_true.mp batch_loop_dispatches.2.2.2.2.2 (name, P) hm
+  simp only [Bool.or_eq_true, beq_iff_eq, Bool.and_eq_true, decide_eq_true_eq] at hrow
+  rcases hrow with hadv | ⟨h0, hlen⟩
+  · exact absurd hadv hn
+  · have hst : ∃ rest, rest ≠ [] ∧ stmts P = (.check none v_Batch_verify) :: rest := by
+      cases hsp : stmts P with
+      | nil => rw [hsp] at hlen; simp at hlen
+      | cons a rest =>
+          rw [hsp] at h0 hlen
+          simp at h0
+          refine ⟨rest, ?_, by rw [h0]⟩
+          intro hr; rw [hr] at hlen; simp at hlen
+    obtain ⟨rest, hr, hst⟩ := hst
+    rw [← seqs_stmts P, hst, seqs_cons_ne _ _ hr] at hres
+    have hv := Ach.Props.AcceptedHash.check_passes c [] none _ (Ach.Props.Accepted.accept_seq_left (by decide) hres)
+    unfold run
+    rw [hv]
+
+/-- the same for IAT batches: `IATBatch.Validate()` = nil ⇒ `IATBatch.verify()` = nil -/
+theorem accepted_iat_validate_verified (c : Ctx) (ha : run c v_IATBatch_Validate = .accept) :
+    run c v_IATBatch_verify = .accept := by
+  have hres := Ach.Props.Validators.accept_ret c _ ha
+  have hshape : stmts v_IATBatch_Validate = (.check none v_IATBatch_verify) :: (stmts v_IATBatch_Validate).drop 1 ∧
+      (stmts v_IATBatch_Validate).drop 1 ≠ [] := by decide +kernel
+  rw [← seqs_stmts v_IATBatch_Validate, hshape.1, seqs_cons_ne _ _ hshape.2] at hres
+  have hv := Ach.Props.AcceptedHash.check_passes c [] none _ (Ach.Props.Accepted.accept_seq_left (by decide) hres)
+  unfold run
+  rw [hv]
+
 end Ach.Props.AcceptedFileBatches
